@@ -37,6 +37,10 @@ func Of(obj interface{}, depth int) map[string]string {
 	return out
 }
 
+// Reverse makes walk call the accessors in reverse (descending name) order: objects whose accessors
+// are read-only must give the same digest in either order.
+var Reverse = false
+
 // Visit digests obj and reports every accessor call to v.
 func Visit(obj interface{}, depth int, v Visitor) map[string]string {
 	out := map[string]string{}
@@ -77,7 +81,11 @@ func walk(v reflect.Value, path string, depth int, out map[string]string, vis Vi
 	}
 	t := v.Type()
 	tn := typeName(t)
-	for i := 0; i < t.NumMethod(); i++ {
+	for k := 0; k < t.NumMethod(); k++ {
+		i := k
+		if Reverse {
+			i = t.NumMethod() - 1 - k
+		}
 		m := t.Method(i)
 		if m.Type.NumIn() != 1 || m.Type.NumOut() == 0 { // receiver only
 			continue
